@@ -152,6 +152,15 @@ Proof.
   split; [exact qlist_eqb_sound|exact cdinv_check_sound].
 Qed.
 
+(* ... and the closeness checkers used for "scalar calls = array calls" (pixels and jacobian
+   entries absolutely; sky positions: latitude, and longitude across the seam weighted by an upper
+   bound of cos(lat)). *)
+Theorem C10_same_checkers_sound :
+  (forall a b tol, qlist_close_abs a b tol = true -> Forall2 (fun x y => (Qabs.Qabs (x - y) <= tol)%Q) a b)
+  /\ (forall a b tol, sky_list_same a b tol = true ->
+        Forall2 (fun p q => (Qabs.Qabs (snd p - snd q) <= tol /                             lon_wrap_abs (fst p - fst q) * lon_weight (snd p) <= tol)%Q) a b).
+Proof. split; [exact qlist_close_abs_sound|exact sky_list_same_sound]. Qed.
+
 (* Non-vacuity: concrete distorted headers meet the hypotheses used above. *)
 Definition ex_header (p : proj) : header :=
   {| h_proj := p; h_crpix1 := 100; h_crpix2 := 200; h_crval1 := 359; h_crval2 := 89;
